@@ -25,7 +25,7 @@ RULE = (
 )
 BOUNDS = {
     "quick": "8 fixtures; regions: parse code + next_parse_offset (5 bytes) of every unit, every 1-byte window of the first sequence header, the C06 quick windows inside picture/fragment/padding units narrowed to 1 byte, the 4 prefix bytes of the first two units, a 6-byte stream prefix, truncation anywhere; default options, plus --show-internal-state / --verbose / --hide slice / --from-offset --to-offset option sets on the parse-info regions of 3 fixtures; declared sizes <= dec.SERDES_BOUNDS",
-    "thorough": "all fixtures; regions as C06 thorough; option sets on the parse-info regions of all fixtures",
+    "thorough": "all fixtures; the C06 quick region set at full width (2-byte windows inside data units); 8-byte stream prefix on 2 fixtures; option sets on all parse-info regions of all fixtures",
 }
 OUTSIDE = (
     "regions larger than the bound; streams declaring sizes above the serdes resource bounds; text rendering of symbolic values is "
@@ -71,7 +71,7 @@ def tasks(tier, seed):
     for name in names:
         meta = idx[name]
         pis = []
-        for label, regions in c06._regions(name, meta, tier, rnd):
+        for label, regions in c06._regions(name, meta, "quick", rnd):  # C06's thorough region set is far beyond this check's budget
             if quick and not label.startswith("code+npo"):
                 regions = [(s, 1) for (s, n) in regions]  # quick: one-byte windows inside data units
             out.append({"id": "%s/%s" % (name, label), "harness": "region", "args": (name, regions, [])})
